@@ -288,9 +288,10 @@ def check_metadata(prog, chk, rule_id):
 
 
 def check_ok_after_failure(prog, chk, rule_id, rules):
-    """A verification rule never stores the OK verdict on a path that left a failed helper call (status != KSI_OK branch) without a new
-    status-producing call in between: an unverifiable component must not be reported as verified."""
-    from ksirules.flow import edge_facts, status_var
+    """A verification rule never stores the OK verdict while the status of a helper call is a pending failure: CFG x {status is OK from
+    a call, status is a failure from a call, status is a constant}; comparisons of the status with constants refine the state.  An
+    unverifiable component must not be reported as verified."""
+    from ksirules.flow import edge_facts, path_lines, status_var
     from ksirules.model import is_int, is_var, lvalue_key, strip, walk
     OKC = prog.const("KSI_VER_RES_OK")
     for r in rules:
@@ -298,57 +299,97 @@ def check_ok_after_failure(prog, chk, rule_id, rules):
         sv = status_var(fn)
         if sv is None:
             continue
-        okstores = set()
+        okstores = {}
         for b, i, n in fn.nodes():
             if n.get("k") == "asg" and (lvalue_key(n["l"], fn) or "").endswith("->resultCode") and is_int(fn.resolve(strip(n["r"])), OKC):
-                okstores.add(b)
+                okstores.setdefault(b, i)
         if not okstores:
             continue
-        # blocks that (re)compute the status from a call
-        recompute = set()
-        for b, blk in fn.blocks.items():
-            for el in blk["elems"]:
-                for n in walk(el["e"]):
-                    if n.get("k") == "asg" and is_var(n["l"], sv) and fn.as_call(n["r"]) is not None:
-                        recompute.add(b)
+
+        def step(state, el):
+            """status effect of one CFG element"""
+            out = {state}
+            for n in walk(el):
+                if n.get("k") == "asg" and is_var(n["l"], sv):
+                    rhs = fn.resolve(strip(n["r"]))
+                    if fn.as_call(n["r"]) is not None or (isinstance(n["r"], dict) and n["r"].get("k") == "ref" and fn.as_call(rhs) is not None):
+                        out = {"OK", "F"}
+                    elif is_int(rhs):
+                        out = {"C"}
+                    else:
+                        out = {"C"}
+                elif n.get("k") == "decl" and n["n"] == sv:
+                    out = {"C"}
+            return out
+        start = (fn.entry, "C")
+        prev = {start: None}
+        work = [start]
         bad = None
         ncalls = 0
-        for b in fn.blocks:
-            for e in fn.succ[b]:
-                failed = False
-                for (op, l, r_) in edge_facts(fn, e):
-                    if is_var(l, sv) and is_int(r_, 0) and op == "!=":
-                        failed = True
-                    if is_var(r_, sv) and is_int(l, 0) and op == "!=":
-                        failed = True
-                if not failed:
-                    continue
-                ncalls += 1
-                seen, work = set(), [(e.dst, [b, e.dst])]
-                while work and bad is None:
-                    x, path = work.pop()
-                    if x in seen:
-                        continue
-                    seen.add(x)
-                    if x in okstores:
-                        bad = path
-                        break
-                    if x in recompute:
-                        continue
-                    for e2 in fn.succ[x]:
-                        # a later test `res == KSI_OK` / `res != KSI_OK` on the same failed status is decided
-                        skip = False
-                        for (op, l, r_) in edge_facts(fn, e2):
-                            if ((is_var(l, sv) and is_int(r_, 0)) or (is_var(r_, sv) and is_int(l, 0))) and op == "==":
-                                skip = True
-                        if not skip:
-                            work.append((e2.dst, path + [e2.dst]))
-                if bad:
+        while work and bad is None:
+            node = work.pop()
+            b, st = node
+            states = {st}
+            for i, el in enumerate(fn.blocks[b]["elems"]):
+                if b in okstores and okstores[b] == i and "F" in states:
+                    bad = node
                     break
+                nxt = set()
+                for s_ in states:
+                    nxt |= step(s_, el["e"])
+                states = nxt
             if bad:
                 break
-        from ksirules.flow import path_lines
+            swit = fn.branch_cond(b)
+            on_status = swit is not None and is_var(fn.resolve(strip(swit)), sv)
+            case_vals = {e.label[1] for e in fn.succ[b] if isinstance(e.label, tuple) and e.label[0] == "case"}
+            for e in fn.succ[b]:
+                for s_ in states:
+                    keep = True
+                    s_out = s_
+                    if on_status and isinstance(e.label, tuple):
+                        # switch (res): a named error constant is a deliberate decision of the rule, not a pending failure
+                        if e.label[0] == "case":
+                            if e.label[1] == 0:
+                                keep = s_ != "F"
+                                s_out = "OK" if s_ != "C" else "C"
+                            else:
+                                keep = s_ != "OK"
+                                s_out = "C"
+                        elif e.label[0] == "default" and 0 in case_vals and s_ == "OK":
+                            keep = False
+                    for (op, l, r_) in edge_facts(fn, e):
+                        if is_var(r_, sv) and is_int(l):
+                            l, r_ = r_, l
+                        if not (is_var(l, sv) and is_int(r_)):
+                            continue
+                        c = strip(r_)["v"]
+                        if c == 0:
+                            if op == "==" and s_ == "F":
+                                keep = False
+                            if op == "!=" and s_ == "OK":
+                                keep = False
+                        else:
+                            if op == "==" and s_ == "OK":
+                                keep = False
+                            if op == "==" and s_ == "F":
+                                s_out = "C"        # res == <named error>: handled on purpose from here on
+                    if keep:
+                        n2 = (e.dst, s_out)
+                        if n2 not in prev:
+                            prev[n2] = node
+                            work.append(n2)
+        ncalls = sum(1 for b2, i2, n in fn.calls())
+        path = None
+        if bad is not None:
+            path = []
+            x = bad
+            while x is not None:
+                path.append(x[0])
+                x = prev[x]
+            path = list(reversed(path))
         chk.ob(rule_id, r[len(PFX):], bad is None,
-               "%d failure branches: none of them reaches the store of the OK verdict" % ncalls if bad is None else
-               "a path from a failed helper call (status != KSI_OK) reaches the store of the OK verdict without a new operation: what could not be "
-               "verified is reported as verified", loc=fn.loc(), fn=fn, path=None if bad is None else path_lines(fn, bad), nontrivial=ncalls > 0)
+               "the OK verdict is stored only on paths on which the status of the last helper call is KSI_OK" if bad is None else
+               "the store of the OK verdict is reachable while the status of a helper call is a failure that was only compared with particular "
+               "error codes: what could not be verified is reported as verified", loc=fn.loc(), fn=fn,
+               path=None if path is None else path_lines(fn, path), nontrivial=ncalls > 0)
